@@ -1065,3 +1065,91 @@ func isParamOf(info *types.Info, fd *ast.FuncDecl, body *ast.BlockStmt, v *types
 	}
 	return false
 }
+
+// ---------------------------------------------------------------- C09-a an error handed to the collector is kept
+
+// c09ErrorsRecorded (C09-a/errors-recorded): Compile reports a malformed
+// construct by handing it to (*CompilerErrors).add; nested compiles hand
+// theirs over through inherit. Both must keep what they are given: in add,
+// no path from entry to exit avoids the append to the error list; in inherit
+// every element of the other list reaches add (a range over it whose body
+// calls add on every path, no break/continue/return).
+func c09ErrorsRecorded(c *Ctx, r *Report, rule string) {
+	const pkg = "rare/pkg/expressions"
+	if fi := c.MustFunc(r, rule, pkg, "(*CompilerErrors).add"); fi != nil {
+		info := fi.Pkg.TypesInfo
+		fg := NewFGraph(fi.Decl.Body, info)
+		isAppend := func(nd *FNode) bool {
+			as, ok := nd.N.(*ast.AssignStmt)
+			if !ok || len(as.Lhs) != 1 || len(as.Rhs) != 1 {
+				return false
+			}
+			ce, ok := ast.Unparen(as.Rhs[0]).(*ast.CallExpr)
+			if !ok || calleeName(info, ce) != "builtin.append" || len(ce.Args) < 2 {
+				return false
+			}
+			lf, af := fieldVar(info, as.Lhs[0]), fieldVar(info, ce.Args[0])
+			return lf != nil && lf == af
+		}
+		has := false
+		for _, nd := range fg.Nodes {
+			if nd.N != nil && isAppend(nd) {
+				has = true
+			}
+		}
+		skips := fg.Reaches(fg.Entry, fg.Exit, isAppend)
+		r.Check(has && !skips, rule, fi.Name, "append on every path", c.Pos(fi.Decl.Pos()), "path: no path through add avoids the append to the error list",
+			"(*CompilerErrors).add can return without recording the error it was given: Compile reports empty statements, unknown functions, unterminated statements and the errors of nested arguments only through this method, so a malformed construct can go unreported (e.g. a second malformed argument at an offset already taken)")
+	}
+	if fi := c.MustFunc(r, rule, pkg, "(*CompilerErrors).inherit"); fi != nil {
+		info := fi.Pkg.TypesInfo
+		ok, why := false, "inherit does not range over the other error list"
+		ast.Inspect(fi.Decl.Body, func(x ast.Node) bool {
+			rs, isRange := x.(*ast.RangeStmt)
+			if !isRange || ok {
+				return true
+			}
+			if fv := fieldVar(info, rs.X); fv == nil || fv.Name() != "Errors" {
+				return true
+			}
+			fg := NewFGraph(rs.Body, info)
+			callsAdd := func(nd *FNode) bool {
+				if nd.N == nil {
+					return false
+				}
+				for _, ce := range callsIn(nd.N) {
+					if isAnchorCall(c, info, ce, pkg, "(*CompilerErrors).add") {
+						return true
+					}
+					if as := calleeName(info, ce); as == "builtin.append" {
+						if len(ce.Args) > 0 {
+							if fv := fieldVar(info, ce.Args[0]); fv != nil && fv.Name() == "Errors" {
+								return true
+							}
+						}
+					}
+				}
+				return false
+			}
+			branches := false
+			ast.Inspect(rs.Body, func(y ast.Node) bool {
+				switch y.(type) {
+				case *ast.BranchStmt, *ast.ReturnStmt:
+					branches = true
+				}
+				return true
+			})
+			switch {
+			case branches:
+				why = "the loop over the inherited errors can skip or abandon elements"
+			case fg.Reaches(fg.Entry, fg.Exit, callsAdd):
+				why = "an iteration over the inherited errors can finish without adding the element"
+			default:
+				ok = true
+			}
+			return true
+		})
+		r.Check(ok, rule, fi.Name, "every inherited error is added", c.Pos(fi.Decl.Pos()), "path: every element of the nested error list reaches add", why+": errors found while compiling a nested argument are lost, so a malformed nested statement is not reported")
+	}
+	r.Floor(rule, 2, "add and inherit")
+}
